@@ -413,7 +413,7 @@ fn body_strategy() -> BoxedStrategy<Body> {
     let example = (0u8..4, pickw(vec![(3u32, None), (2, Some("GET".to_string())), (2, Some("POST".to_string()))]), pickw(vec![(3u32, None), (1, Some(200u16)), (2, Some(404))]), prop::bool::weighted(0.8), 0u8..5);
     (
         (0..PATHS.len(), prop::bool::weighted(0.15), pickw(vec![(2u32, None), (3, Some(301u16)), (2, Some(302)), (1, Some(307)), (2, Some(308)), (1, Some(404))]), target),
-        (pickw(vec![(6u32, None), (2, Some((vec![404u16], false))), (1, Some((vec![200], false))), (1, Some((vec![404], true)))]), 0u16..4, pickw(vec![(5u32, None), (1, Some(vec!["GET".to_string()])), (1, Some(vec!["POST".to_string()]))])),
+        (pickw(vec![(6u32, None), (2, Some((vec![404u16], false))), (1, Some((vec![200], false))), (1, Some((vec![404], true)))]), 0u16..4, pickw(vec![(5u32, None), (1, Some(vec!["GET".to_string()])), (1, Some(vec!["POST".to_string()])), (2, Some(vec!["GET".to_string(), "POST".to_string()]))])),
         (prop::option::weighted(0.4, 0u8..5), 0u8..6, pickw(vec![(4u32, None), (1, Some(true)), (1, Some(false))]), prop::bool::weighted(0.08), prop::bool::weighted(0.08)),
         prop::collection::vec(example, 1..=2),
     )
